@@ -5,12 +5,15 @@ caller data (unless the routine is documented in place) or an interpreter crash
 is a violation of C20."""
 from __future__ import annotations
 
+import os
+
 import numpy as np
 
 from harness.util import Snapshot
 
-LAYOUTS = ["C", "F", "strided", "reversed", "readonly"]
+LAYOUTS = ["C", "F", "strided", "reversed", "readonly", "bigendian", "subclass", "memmap"]
 PROBES = {}
+_TMPDIRS = []
 
 
 def probe(name, sizes=(6, 1, 0)):
@@ -20,8 +23,18 @@ def probe(name, sizes=(6, 1, 0)):
     return deco
 
 
+class Sub(np.ndarray):
+    """a plain ndarray subclass (array-likes of this kind reach the routines through np.asarray)"""
+
+
+def _cleanup():
+    import shutil
+    while _TMPDIRS:
+        shutil.rmtree(_TMPDIRS.pop(), ignore_errors=True)
+
+
 def lay(a, layout):
-    """Return an array equal to `a` with the requested memory layout."""
+    """Return an array equal to `a` with the requested memory layout / flavour."""
     a = np.asarray(a)
     if layout == "C":
         return np.ascontiguousarray(a).copy()
@@ -39,20 +52,92 @@ def lay(a, layout):
         b = np.ascontiguousarray(a).copy()
         b.setflags(write=False)
         return b
+    if layout == "bigendian":        # non-native byte order (data read from big-endian files)
+        if a.dtype.kind in "iuf" and a.dtype.itemsize > 1:
+            return np.ascontiguousarray(a).astype(a.dtype.newbyteorder(">"))
+        return np.ascontiguousarray(a).copy()
+    if layout == "subclass":
+        return np.ascontiguousarray(a).copy().view(Sub)
+    if layout == "memmap":           # a writable memory map: an in-place routine would change the file
+        import atexit
+        import tempfile
+        if a.size == 0:
+            return np.ascontiguousarray(a).copy()
+        if not _TMPDIRS:
+            atexit.register(_cleanup)
+        d = tempfile.mkdtemp(prefix="c20mm-")
+        _TMPDIRS.append(d)
+        m = np.memmap(os.path.join(d, "a.dat"), dtype=a.dtype, mode="w+", shape=a.shape)
+        m[...] = a
+        m.flush()
+        return m
     raise ValueError(layout)
 
 
 def call(fn, **objs):
-    """Run `fn` (a thunk, or a list of thunks run independently); returns
-    (name of first mutated argument | None, '+'-joined exception class names | None)."""
-    snap = Snapshot(**objs)
-    excs = []
-    for f in (fn if isinstance(fn, (list, tuple)) else [fn]):
+    """Run `fn`: a thunk, a list of thunks, or a list of (qualified routine name, thunk), each run independently
+    with its own snapshot of the caller's objects.  Returns
+      (name of the first modified argument | None, '+'-joined exception class names | None,
+       [(routine | None, modified argument | None) per thunk])."""
+    excs, events, first = [], [], None
+    for item in (fn if isinstance(fn, (list, tuple)) else [fn]):
+        routine, f = item if isinstance(item, tuple) else (None, item)
+        snap = Snapshot(**objs)
         try:
             f()
         except Exception as e:  # accepted refusal
             excs.append(type(e).__name__)
-    return snap.changed(), ("+".join(sorted(set(excs))) or None)
+            if os.environ.get("C20_PROBE_DEBUG"):
+                import traceback
+                print("PROBE-EXC", routine, "".join(traceback.format_exception_only(type(e), e)).strip()[:300],
+                      "@", traceback.extract_tb(e.__traceback__)[-1][:3])
+        ch = snap.changed()
+        events.append((routine, ch))
+        if ch and first is None:
+            first = ch
+    _cleanup()        # the files behind memory-mapped inputs (unlinking them does not disturb the live maps)
+    return first, ("+".join(sorted(set(excs))) or None), events
+
+
+def each(*fs):
+    """run every thunk (so that one refusal does not hide the routines after it); the first exception is re-raised"""
+    first = None
+    for f in fs:
+        try:
+            f()
+        except Exception as e:
+            first = first or e
+    if first is not None:
+        raise first
+
+
+def forked(f, timeout=60):
+    """run f() in a forked child: ('ok', None) | ('exc', class name) | ('crash', signal) | ('hang', None)"""
+    import signal
+    import time
+    pid = os.fork()
+    if pid == 0:
+        code = 0
+        try:
+            try:
+                f()
+            except Exception:
+                code = 7
+        finally:
+            os._exit(code)
+    t0 = time.time()
+    while True:
+        done, status = os.waitpid(pid, os.WNOHANG)
+        if done:
+            break
+        if time.time() - t0 > timeout:
+            os.kill(pid, signal.SIGKILL)
+            os.waitpid(pid, 0)
+            return "hang", None
+        time.sleep(0.01)
+    if os.WIFSIGNALED(status):
+        return "crash", os.WTERMSIG(status)
+    return ("exc", None) if os.WEXITSTATUS(status) == 7 else ("ok", None)
 
 
 def rs(v):
@@ -489,10 +574,19 @@ def _(v):
     d = lay(r.rand(n, 4, 3) * 100, v["layout"]); mask = lay(np.ones((n, 4, 3), dtype=bool), v["layout"])
     mu = np.array([20., 50, 80]); sigma = np.array([100., 100, 100])
 
+    ppm0 = lay(np.full((n, 4, 3, 3), 1 / 3.0) + r.rand(n, 4, 3, 3) * 0.01, v["layout"])
+    U = lay(np.ones((3, 3)) - np.eye(3), v["layout"]); prior = lay(np.full((n, 4, 3, 3), 1 / 3.0), v["layout"])
+
     def go():
         S = Segmentation(d, mask=mask, mu=mu, sigma=sigma, beta=0.5, ngb_size=6)
         S.run(niters=2); S.map(); S.free_energy()
-    return call(go, d=d, mask=mask, mu=mu, sigma=sigma)
+
+    def given():     # the caller's posterior map / interaction matrix / prior are inputs, ve_step works on its own copy
+        S = Segmentation(d, mask=mask, ppm=ppm0, U=U, prior=prior, beta=0.5, ngb_size=26)
+        S.ve_step(); S.vm_step(); S.ve_step(); S.map(); S.free_energy()
+    return call([("nipy.algorithms.segmentation.segmentation.Segmentation(mu, sigma)", go),
+                 ("nipy.algorithms.segmentation.segmentation.Segmentation(ppm, U, prior)", given)],
+                d=d, mask=mask, mu=mu, sigma=sigma, ppm0=ppm0, U=U, prior=prior)
 
 
 @probe("slicetiming+hrf scalars")
@@ -506,3 +600,409 @@ def _(v):
             f(n, 2.0)
         hm.spm_hrf(2.0, 4); hm.glover_hrf(2.0, 4)
     return call(go)
+
+
+# ---------------------------------------------------------------- documented in-place routines (the registry)
+@probe("inplace.documented")
+def _(v):
+    """routines whose docstring says they work in place: a mutation here is `documented`, never a violation;
+    the same probe calls their copying variants, which must leave the argument alone"""
+    from nipy.algorithms.statistics.utils import multiple_fast_inv
+    from nipy.labs.mask import threshold_connect_components
+    from nipy.modalities.fmri.hemodynamic_models import _orthogonalize
+    from nipy.modalities.fmri.design import stack_contrasts
+    from nipy.algorithms.clustering.imm import IMM
+    r = rs(v); n = max(v["n"], 1)
+    A = r.randint(-2, 3, size=(n, 3, 3)).astype(float)
+    a = lay(np.einsum("kij,klj->kil", A, A) + 3 * np.eye(3), v["layout"])
+    vol = lay((r.rand(v["n"], 4, 3) > 0.6).astype(float), v["layout"])
+    X = lay(r.randint(-3, 4, size=(v["n"] + 2, 3)).astype(float), v["layout"])
+    cons = {"a": np.array([[1., 0, 0]]), "b": np.array([[0., 1, 0]])}
+    z = lay(r.randint(0, 4, size=v["n"]) * 2, v["layout"])
+    ops = [("nipy.algorithms.statistics.utils.multiple_fast_inv", lambda: multiple_fast_inv(a)),
+           ("nipy.labs.mask.threshold_connect_components", lambda: threshold_connect_components(vol, 3, copy=False)),
+           ("nipy.modalities.fmri.hemodynamic_models._orthogonalize", lambda: _orthogonalize(X)),
+           ("nipy.modalities.fmri.design.stack_contrasts", lambda: stack_contrasts(cons, "ab", ["a", "b"])),
+           ("nipy.algorithms.clustering.imm.IMM.reduce", lambda: IMM(dim=1).reduce(z))]
+    return call(ops, a=a, vol=vol, X=X, cons=cons, z=z)
+
+
+@probe("inplace.complement")
+def _(v):
+    """the copying counterparts of the documented in-place routines"""
+    from nipy.labs.mask import threshold_connect_components
+    from nipy.modalities.fmri.design import stack2designs, stack_designs
+    from nipy.modalities.fmri.hemodynamic_models import compute_regressor
+    r = rs(v)
+    vol = lay((r.rand(v["n"], 4, 3) > 0.6).astype(float), v["layout"])
+    d1 = lay(r.randn(v["n"] + 2, 2), v["layout"]); d2 = lay(r.randn(v["n"] + 2, 1), v["layout"])
+    c1 = {"x": np.array([1., 0])}; c2 = {"y": np.array([1.])}
+    ft = lay(np.arange(v["n"] + 4) * 2.0, v["layout"])
+    cond = lay(np.array([[0., 4, 8], [1, 1, 2], [1, 1, 1]]), v["layout"])
+    ops = [("nipy.labs.mask.threshold_connect_components(copy=True)", lambda: threshold_connect_components(vol, 3)),
+           ("nipy.modalities.fmri.design.stack2designs", lambda: stack2designs(d1, d2, c1, c2)),
+           ("nipy.modalities.fmri.design.stack_designs", lambda: stack_designs((d1, c1), (d2, c2))),
+           ("nipy.modalities.fmri.hemodynamic_models.compute_regressor",
+            lambda: compute_regressor(cond, "spm_time_dispersion", ft, oversampling=4))]
+    return call(ops, vol=vol, d1=d1, d2=d2, c1=c1, c2=c2, ft=ft, cond=cond)
+
+
+@probe("registration.T in place", sizes=(6, 1))
+def _(v):
+    """HistogramRegistration.explore / eval_gradient / eval_hessian are documented to modify `T` in place
+    unless it has a `copy` method: Affine has one, so the caller's transform must come back unchanged"""
+    from nipy.core.api import Image, vox2mni
+    from nipy.algorithms.registration import HistogramRegistration, Affine
+    r = rs(v); n = v["n"] + 3
+    a = lay(r.randint(0, 50, size=(n, 5, 4)).astype(np.int16), v["layout"])
+    b = lay(r.randint(0, 50, size=(n, 5, 4)).astype(np.int16), v["layout"])
+    T = Affine(np.array([0.5, 0, 0, 0, 0, 0, 1, 1, 1, 0, 0, 0]))
+    p0 = lay(T.param.copy(), "C")
+    state = {"param": T.param}
+
+    def mk():
+        return HistogramRegistration(Image(a, vox2mni(np.eye(4))), Image(b, vox2mni(np.eye(4))), from_bins=8, to_bins=8)
+    ops = [("nipy.algorithms.registration.histogram_registration.HistogramRegistration.explore(T with copy)",
+            lambda: (mk().explore(T, (0, [-1, 0, 1])), state.update(param=T.param))),
+           ("nipy.algorithms.registration.histogram_registration.HistogramRegistration.eval_gradient(T with copy)",
+            lambda: (mk().eval_gradient(T), state.update(param=T.param))),
+           ("nipy.algorithms.registration.histogram_registration.HistogramRegistration.eval_hessian(T with copy)",
+            lambda: (mk().eval_hessian(T), state.update(param=T.param)))]
+    return call(ops, a=a, b=b, state=state, p0=p0)
+
+
+# ---------------------------------------------------------------- inputs the compiled code cannot handle
+@probe("segmentation.ngb_size", sizes=(6, 1))
+def _(v):
+    """neighbourhood sizes the C tables do not know: must be refused with an exception, not crash"""
+    from nipy.algorithms.segmentation import Segmentation
+    from nipy.algorithms.segmentation.brain_segmentation import BrainT1Segmentation
+    r = rs(v); n = v["n"] + 2
+    d = lay(r.rand(n, 4, 3) * 100, v["layout"])
+    mu = np.array([20., 50, 80]); sigma = np.array([100., 100, 100])
+    crashed = []
+    for ngb in (6, 26, 7, 0, -6, 18, 27):
+        def go(ngb=ngb):
+            S = Segmentation(d, mu=mu, sigma=sigma, ngb_size=ngb)
+            S.ve_step(); S.free_energy()
+        st, sig = forked(go)
+        if st in ("crash", "hang"):
+            crashed.append((ngb, st, sig))
+    mutated, exc, ev = call([lambda: Segmentation(d, mu=mu, sigma=sigma, ngb_size=6).run(niters=1)], d=d, mu=mu, sigma=sigma)
+    if crashed:
+        ngb, st, sig = crashed[0]
+        raise Crash(f"Segmentation(..., ngb_size={ngb}).ve_step() "
+                    + (f"crashes the interpreter (signal {sig})" if st == "crash" else "hangs"))
+    return mutated, exc, ev
+
+
+class Crash(Exception):
+    """a forked call crashed / hung: a C20 violation reported by the probe itself"""
+
+
+# ---------------------------------------------------------------- nipy.labs (anchored directory)
+@probe("labs.discrete_domain")
+def _(v):
+    from nipy.labs.spatial_models import discrete_domain as dd
+    r = rs(v); n = v["n"]
+    mask = lay(r.rand(n, 4, 3) > 0.3, v["layout"])
+    aff = lay(np.diag([2., 3, 4, 1]), v["layout"])
+    ijk = lay(np.array(np.nonzero(np.ones((max(n, 1), 2, 2)))).T.astype(np.intp), v["layout"])
+    feat = lay(r.randn(int(np.sum(np.asarray(mask))), 2), v["layout"])
+
+    def dom():
+        D = dd.grid_domain_from_binary_array(mask, aff, nn=6)
+        D.set_feature("f", feat); D.representative_feature("f", "mean"); D.integrate("f")
+        D.connected_components(); D.mask(np.arange(D.size) % 2 == 0); D.copy(); D.get_coord(); D.get_volume()
+    ops = [("nipy.labs.spatial_models.discrete_domain.smatrix_from_3d_array", lambda: dd.smatrix_from_3d_array(mask, 18)),
+           ("nipy.labs.spatial_models.discrete_domain.smatrix_from_nd_array", lambda: dd.smatrix_from_nd_array(mask, 1)),
+           ("nipy.labs.spatial_models.discrete_domain.smatrix_from_3d_idx", lambda: dd.smatrix_from_3d_idx(ijk, 6)),
+           ("nipy.labs.spatial_models.discrete_domain.smatrix_from_nd_idx", lambda: dd.smatrix_from_nd_idx(ijk, 0)),
+           ("nipy.labs.spatial_models.discrete_domain.array_affine_coord", lambda: dd.array_affine_coord(mask, aff)),
+           ("nipy.labs.spatial_models.discrete_domain.idx_affine_coord", lambda: dd.idx_affine_coord(ijk, aff)),
+           ("nipy.labs.spatial_models.discrete_domain.domain_from_binary_array", lambda: dd.domain_from_binary_array(mask, aff, 18)),
+           ("nipy.labs.spatial_models.discrete_domain.NDGridDomain", dom),
+           ("nipy.labs.spatial_models.discrete_domain.grid_domain_from_shape", lambda: dd.grid_domain_from_shape((2, 3, 2), aff))]
+    return call(ops, mask=mask, aff=aff, ijk=ijk, feat=feat)
+
+
+@probe("labs.mroi+hroi")
+def _(v):
+    from nipy.labs.spatial_models import discrete_domain as dd, mroi, hroi
+    r = rs(v); n = v["n"]
+    labels = lay(r.randint(-1, 3, size=(n, 4, 3)), v["layout"])
+    aff = lay(np.eye(4), v["layout"])
+    mask = np.ones((max(n, 1), 4, 3), dtype=bool)
+    data = lay(r.randn(mask.sum()), v["layout"])
+    pos = lay(np.array([[0., 0, 0], [1, 2, 1]]), v["layout"]); rad = lay(np.array([1.5, 1.0]), v["layout"])
+
+    def sub():
+        S = mroi.subdomain_from_array(labels, aff, nn=6)
+        f = [r.randn(s, 1) for s in S.get_size()]
+        each(S.get_size, S.get_volume, S.get_coord, S.copy, lambda: S.set_feature("a", f),
+             lambda: S.representative_feature("a"), lambda: S.integrate("a"), lambda: S.feature_to_voxel_map("a"),
+             lambda: S.select_roi(S.get_id()[:1]), lambda: S.get_local_volume(), lambda: S.to_image())
+
+    def hr():
+        D = dd.grid_domain_from_binary_array(mask, np.eye(4), nn=6)
+        each(lambda: hroi.HROI_as_discrete_domain_blobs(D, data, threshold=-1., smin=1),
+             lambda: hroi.HROI_from_watershed(D, data, threshold=-10.).reduce_to_leaves())
+        H = hroi.HROI_from_watershed(D, data, threshold=-10.)
+        each(H.get_leaves_id, H.get_parents, H.make_forest, H.copy, H.merge_ascending, H.merge_descending)
+
+    def balls():
+        D = dd.grid_domain_from_binary_array(mask, np.eye(4), nn=6)
+        mroi.subdomain_from_balls(D, pos, rad)
+    ops = [("nipy.labs.spatial_models.mroi.subdomain_from_array", sub),
+           ("nipy.labs.spatial_models.hroi.HROI_from_watershed", hr),
+           ("nipy.labs.spatial_models.mroi.subdomain_from_balls", balls)]
+    return call(ops, labels=labels, aff=aff, data=data, pos=pos, rad=rad)
+
+
+@probe("labs.parcellation+bfls")
+def _(v):
+    from nipy.labs.spatial_models import discrete_domain as dd
+    from nipy.labs.spatial_models.parcellation import MultiSubjectParcellation
+    from nipy.labs.spatial_models.structural_bfls import build_landmarks, _threshold_weight_map
+    from nipy.labs.spatial_models.hierarchical_parcellation import hparcel
+    r = rs(v); n = max(v["n"], 1)
+    D = dd.grid_domain_from_shape((n, 3, 2))
+    tl = lay(np.arange(D.size) % 2, v["layout"]); il = lay((np.arange(D.size * 2).reshape(D.size, 2) // 3) % 2, v["layout"])
+    ld = [lay(r.randn(D.size, 1), v["layout"]) for _ in range(2)]
+    coords = lay(r.randn(5, 3), v["layout"]); subj = lay(np.array([0, 0, 1, 1, 2]), v["layout"])
+    lab = lay(np.array([0, 1, 0, 1, 0]), v["layout"]); w = lay(r.rand(v["n"]), v["layout"])
+
+    gc = lay(D.coord[:4].astype(float), v["layout"])
+
+    def lm():
+        LR = build_landmarks(D, coords, subj, lab, confidence=w[:5] if len(w) >= 5 else None, prevalence_threshold=0, sigma=2.)[0]
+        each(LR.centers, lambda: LR.kernel_density(0, gc, 2.), lambda: LR.map_label(gc, 0.5, 2.), LR.roi_prevalence)
+
+    def msp():
+        P = MultiSubjectParcellation(D, template_labels=tl, individual_labels=il)
+        P.check(); P.copy(); P.population(); P.make_feature("f", r.randn(D.size, 2)); P.get_feature("f")
+    ops = [("nipy.labs.spatial_models.parcellation.MultiSubjectParcellation", msp),
+           ("nipy.labs.spatial_models.hierarchical_parcellation.hparcel", lambda: hparcel(D, ld, 2, niter=2)),
+           ("nipy.labs.spatial_models.structural_bfls.build_landmarks",
+            lambda: build_landmarks(D, coords, subj, lab, prevalence_threshold=0, sigma=2.)),
+           # (`_threshold_weight_map` zeroes its argument in place; it is a private helper whose only caller,
+           #  LandmarkRegions.map_label, hands it a temporary: the public path is what is probed)
+           ("nipy.labs.spatial_models.structural_bfls.LandmarkRegions", lm)]
+    return call(ops, tl=tl, il=il, ld0=ld[0], ld1=ld[1], coords=coords, subj=subj, lab=lab, w=w, gc=gc)
+
+
+@probe("labs.statistical_mapping")
+def _(v):
+    import nibabel as nib
+    from nipy.labs import statistical_mapping as sm
+    r = rs(v); n = v["n"] + 3
+    z = lay(r.randn(n, 5, 4) * 2, v["layout"]); m = lay((r.rand(n, 5, 4) > 0.2).astype(np.uint8), v["layout"])
+    aff = lay(np.diag([2., 2, 2, 1]), v["layout"])
+    p = lay(r.rand(5), v["layout"]); t = lay(r.randn(5), v["layout"]); st = lay(r.randn(20), v["layout"])
+
+    def imgs():
+        return nib.Nifti1Image(np.asarray(z), np.asarray(aff)), nib.Nifti1Image(np.asarray(m), np.asarray(aff))
+    ops = [("nipy.labs.statistical_mapping.cluster_stats", lambda: sm.cluster_stats(*imgs(), height_th=0.2, cluster_th=0)),
+           ("nipy.labs.statistical_mapping.get_3d_peaks", lambda: sm.get_3d_peaks(imgs()[0], None, threshold=0.5)),
+           ("nipy.labs.statistical_mapping.onesample_test",
+            lambda: sm.onesample_test([imgs()[0]] * 3, None, [imgs()[1]], "student")),
+           ("nipy.labs.statistical_mapping.bonferroni", lambda: sm.bonferroni(p, 10)),
+           ("nipy.labs.statistical_mapping.simulated_pvalue", lambda: sm.simulated_pvalue(t, st))]
+    return call(ops, z=z, m=m, aff=aff, p=p, t=t, st=st)
+
+
+@probe("labs.reproducibility+simul")
+def _(v):
+    from nipy.labs.spatial_models import discrete_domain as dd
+    from nipy.labs.utils import reproducibility_measures as rm
+    from nipy.labs.utils.simul_multisubject_fmri_dataset import surrogate_2d_dataset, surrogate_3d_dataset
+    r = rs(v); n = max(v["n"], 1)
+    D = dd.grid_domain_from_shape((n, 3, 2))
+    x = lay(r.randn(D.size, 6), v["layout"]); vx = lay(1 + r.rand(D.size, 6), v["layout"])
+    h = lay(r.randint(0, 4, size=5).astype(float), v["layout"]); sm_ = lay(r.randn(D.size) * 3, v["layout"])
+    pos = lay(np.array([[4., 4], [8, 8]]), v["layout"]); amp = lay(np.array([3., 2]), v["layout"])
+    ops = [("nipy.labs.utils.reproducibility_measures.ttest", lambda: rm.ttest(x)),
+           ("nipy.labs.utils.reproducibility_measures.fttest", lambda: rm.fttest(x, vx)),
+           ("nipy.labs.utils.reproducibility_measures.mfx_ttest", lambda: rm.mfx_ttest(x, vx)),
+           ("nipy.labs.utils.reproducibility_measures.conjunction", lambda: rm.conjunction(x, vx, 2)),
+           ("nipy.labs.utils.reproducibility_measures.voxel_thresholded_ttest", lambda: rm.voxel_thresholded_ttest(x, 0.5)),
+           ("nipy.labs.utils.reproducibility_measures.histo_repro", lambda: rm.histo_repro(h)),
+           ("nipy.labs.utils.reproducibility_measures.cluster_threshold", lambda: rm.cluster_threshold(sm_, D, 0.5, 1)),
+           ("nipy.labs.utils.reproducibility_measures.get_peak_position_from_thresholded_map",
+            lambda: rm.get_peak_position_from_thresholded_map(sm_, D, 0.5)),
+           ("nipy.labs.utils.reproducibility_measures.get_cluster_position_from_thresholded_map",
+            lambda: rm.get_cluster_position_from_thresholded_map(sm_, D, 0.5, 1)),
+           ("nipy.labs.utils.reproducibility_measures.voxel_reproducibility",
+            lambda: rm.voxel_reproducibility(x, vx, D, 2, method="cffx", threshold=0.5, csize=1)),
+           ("nipy.labs.utils.reproducibility_measures.map_reproducibility",
+            lambda: rm.map_reproducibility(x, vx, D, 2, method="cmfx", threshold=0.5, csize=1)),
+           ("nipy.labs.utils.simul_multisubject_fmri_dataset.surrogate_2d_dataset",
+            lambda: surrogate_2d_dataset(n_subj=2, shape=(12, 12), pos=pos, ampli=amp, width=2.0, seed=1)),
+           ("nipy.labs.utils.simul_multisubject_fmri_dataset.surrogate_3d_dataset",
+            lambda: surrogate_3d_dataset(n_subj=1, shape=(6, 6, 6), pos=np.column_stack([pos, [3, 3]]) / 2, ampli=amp,
+                                         width=2.0, seed=1))]
+    return call(ops, x=x, vx=vx, h=h, sm_=sm_, pos=pos, amp=amp)
+
+
+@probe("labs.datasets+viz_tools")
+def _(v):
+    from nipy.labs.datasets.transforms import affine_utils as au
+    from nipy.labs.datasets.transforms.affine_transform import AffineTransform
+    from nipy.labs.datasets.volumes.volume_img import VolumeImg
+    from nipy.labs.viz_tools import coord_tools as ct, edge_detect as ed
+    r = rs(v); n = v["n"] + 2
+    d = lay(r.rand(n, 5, 4), v["layout"]); aff = lay(np.diag([2., 3, 1, 1]) + np.eye(4, k=3)[:4, :4] * 0, v["layout"])
+    x = lay(r.randn(4), v["layout"]); y = lay(r.randn(4), v["layout"]); zc = lay(r.randn(4), v["layout"])
+    m = lay((r.rand(n, 5, 4) > 0.4).astype(np.int8), v["layout"]); im2 = lay(r.rand(n + 4, 7), v["layout"])
+
+    def vol():
+        V = VolumeImg(d, aff, "mni")
+        V.get_transform(); V.xyz_ordered(); V.as_volume_img(); V.like_from_data(np.asarray(d) * 2)
+        V.values_in_world(np.array([1.]), np.array([1.]), np.array([1.]))
+        V.resampled_to_img(VolumeImg(np.asarray(d)[:2], np.asarray(aff), "mni"))
+        V == V
+
+    def tr():
+        T = AffineTransform("a", "b", aff)
+        T.mapping(x, y, zc); T.inverse_mapping(x, y, zc); T.get_inverse(); T.composed_with(AffineTransform("b", "c", aff))
+    ops = [("nipy.labs.datasets.transforms.affine_utils.apply_affine", lambda: au.apply_affine(x, y, zc, aff)),
+           ("nipy.labs.datasets.transforms.affine_utils.to_matrix_vector", lambda: au.to_matrix_vector(aff)),
+           ("nipy.labs.datasets.transforms.affine_utils.get_bounds", lambda: au.get_bounds((3, 4, 5), aff)),
+           ("nipy.labs.datasets.transforms.affine_transform.AffineTransform", tr),
+           ("nipy.labs.datasets.volumes.volume_img.VolumeImg", vol),
+           ("nipy.labs.viz_tools.coord_tools.coord_transform", lambda: ct.coord_transform(x, y, zc, aff)),
+           ("nipy.labs.viz_tools.coord_tools.find_cut_coords", lambda: ct.find_cut_coords(d, mask=m)),
+           ("nipy.labs.viz_tools.coord_tools.get_mask_bounds", lambda: ct.get_mask_bounds(m, aff)),
+           ("nipy.labs.viz_tools.coord_tools.find_maxsep_cut_coords", lambda: ct.find_maxsep_cut_coords(d, aff, n_cuts=2)),
+           ("nipy.labs.viz_tools.edge_detect._edge_map", lambda: ed._edge_map(im2)),
+           ("nipy.labs.viz_tools.edge_detect._fast_abs_percentile", lambda: ed._fast_abs_percentile(d))]
+    return call(ops, d=d, aff=aff, x=x, y=y, zc=zc, m=m, im2=im2)
+
+
+# ---------------------------------------------------------------- the remaining anchored .py routines
+@probe("regression.results+AR")
+def _(v):
+    from nipy.algorithms.statistics.models.regression import (OLSModel, ARModel, ar_bias_corrector, ar_bias_correct,
+                                                              AREstimator)
+    r = rs(v); n = v["n"] + 6
+    X = lay(np.column_stack([np.ones(n), r.randint(-3, 4, size=n), np.arange(n) % 3]).astype(float), v["layout"])
+    Y = lay(r.randint(-5, 6, size=n).astype(float), v["layout"]); beta = lay(np.array([1., 0.5, -1]), v["layout"])
+
+    def ols():
+        M = OLSModel(X); M.has_intercept; M.rank; M.information(beta, nuisance={"sigma": 1.0}); M.score(beta, Y, nuisance={"sigma": 1.0})
+        R = M.fit(Y); R.F_overall; R.R2; R.R2_adj; R.SSR; R.SST; R.MSR; R.norm_resid; R.Tcontrast(np.array([0, 1., 0]))
+
+    def ar():
+        M = ARModel(X, 1); M.iterative_fit(Y, niter=2)
+        R = OLSModel(X).fit(Y); ar_bias_correct(R, 1); AREstimator(OLSModel(X), 1)(R)
+        ar_bias_corrector(X, np.linalg.pinv(X), 1)
+    ops = [("nipy.algorithms.statistics.models.regression.OLSModel+RegressionResults", ols),
+           ("nipy.algorithms.statistics.models.regression.ARModel.iterative_fit+ar_bias_correct", ar)]
+    return call(ops, X=X, Y=Y, beta=beta)
+
+
+@probe("coordmap.constructors")
+def _(v):
+    from nipy.core.api import AffineTransform, CoordinateSystem, CoordinateMap
+    from nipy.core.reference.coordinate_system import CoordSysMaker
+    from nipy.core.reference.coordinate_map import (CoordMapMaker, append_io_dim, shifted_domain_origin,
+                                                    shifted_range_origin, product, compose, drop_io_dim, equivalent)
+    aff = lay(np.array([[2., 0, 0, 1], [0, 3, 0, 2], [0, 0, 4, 3], [0, 0, 0, 1]]), v["layout"])
+    start = lay(np.array([1., 2, 3]), v["layout"]); step = lay(np.array([2., 2, 2]), v["layout"])
+    dn = {"i": "a", "j": "b"}; rn = {"x": "u"}; org = lay(np.array([1., 1, 1]), v["layout"])
+
+    def nonaffine():
+        cm = CoordinateMap(CoordinateSystem("ijk"), CoordinateSystem("xyz"), lambda p: p * 2, lambda p: p / 2)
+        cm.renamed_domain(dn).renamed_range(rn); cm.reordered_domain([2, 0, 1]); cm.inverse(); cm(np.zeros((2, 3)))
+        product(cm, cm.renamed_domain({"i": "l", "j": "m", "k": "n"}).renamed_range({"x": "u", "y": "v", "z": "w"}))
+
+    def affine():
+        cm = AffineTransform(CoordinateSystem("ijk"), CoordinateSystem("xyz"), aff)
+        append_io_dim(cm, "l", "t", 1, 2); shifted_domain_origin(cm, org, "n"); shifted_range_origin(cm, org, "n")
+        compose(cm, cm.inverse()); drop_io_dim(cm, "k"); equivalent(cm, cm); cm.similar_to(cm)
+    ops = [("nipy.core.reference.coordinate_map.AffineTransform.from_start_step",
+            lambda: AffineTransform.from_start_step("ijk", "xyz", start, step)),
+           ("nipy.core.reference.coordinate_map.AffineTransform.identity", lambda: AffineTransform.identity("ijk")),
+           ("nipy.core.reference.coordinate_map.CoordMapMaker",
+            lambda: (CoordMapMaker(CoordSysMaker("ijkl"), CoordSysMaker("xyzt")).make_affine(aff, 2., 1.),
+                     CoordMapMaker(CoordSysMaker("ijkl"), CoordSysMaker("xyzt")).make_cmap(3, lambda p: p + 1))),
+           ("nipy.core.reference.coordinate_map.CoordinateMap.renamed_domain", nonaffine),
+           ("nipy.core.reference.coordinate_map.append_io_dim+shifted_origin+product", affine)]
+    return call(ops, aff=aff, start=start, step=step, dn=dn, rn=rn, org=org)
+
+
+@probe("mask.sessions", sizes=(6, 1))
+def _(v):
+    """compute_mask_sessions / compute_mask_files with in-memory images: the sessions' data are the caller's"""
+    import nibabel as nib
+    from nipy.core.api import Image, vox2mni
+    from nipy.labs import mask as M
+    r = rs(v); n = v["n"] + 3
+    def vol(*shape):
+        a = r.rand(*shape) * 10
+        a[1:-1, 1:4, 1:3] += 90          # a bright blob: the masks are not empty
+        return a
+    d1 = lay(vol(n, 5, 4), v["layout"]); d2 = lay(vol(n, 5, 4), v["layout"])
+    d4 = lay(vol(n, 5, 4, 3), v["layout"])
+
+    def imgs(kind):
+        if kind == "nipy":
+            return [Image(d1, vox2mni(np.eye(4))), Image(d2, vox2mni(np.eye(4)))]
+        return [nib.Nifti1Image(np.asarray(d1), np.eye(4)), nib.Nifti1Image(np.asarray(d2), np.eye(4))]
+    ops = [("nipy.labs.mask.compute_mask_sessions(nipy images, return_mean)",
+            lambda: M.compute_mask_sessions(imgs("nipy"), return_mean=True, cc=0)),
+           ("nipy.labs.mask.compute_mask_sessions(nibabel images, return_mean)",
+            lambda: M.compute_mask_sessions(imgs("nib"), return_mean=True, threshold=0.0, cc=0)),
+           ("nipy.labs.mask.compute_mask_sessions(4-d session)",
+            lambda: M.compute_mask_sessions([Image(d4, vox2mni(np.eye(5))), Image(d4, vox2mni(np.eye(5)))], return_mean=True, cc=0)),
+           ("nipy.labs.mask.compute_mask(reference_volume)", lambda: M.compute_mask(d1, reference_volume=d2)),
+           ("nipy.labs.mask.intersect_masks", lambda: M.intersect_masks([d1 > 50, d2 > 50], threshold=0.5, cc=True))]
+    return call(ops, d1=d1, d2=d2, d4=d4)
+
+
+@probe("labs.group negative axis", sizes=(6, 1))
+def _(v):
+    """a negative `axis` is accepted by the Cython glue of nipy.labs.group (Python indexing of `Y.shape[axis]`) and
+    handed as such to the C multi-iterator (fixed in lib/fff_python_wrapper/fffpy.c; the installed binaries predate the
+    fix).  Run in forked children, since the stale glue may read / write outside its arrays; TAG ONLY."""
+    import pickle
+    from nipy.labs.group import onesample, twosample
+    r = rs(v); n = v["n"] + 2
+    Y = lay(r.randint(-16, 17, size=(n, 2, 3)) / 4.0, v["layout"])
+    V = lay(1 + r.randint(0, 8, size=(n, 2, 3)) / 4.0, v["layout"])
+    Y2 = lay(r.randint(-16, 17, size=(4, 2, 3)) / 4.0, v["layout"])
+    if v["layout"] not in ("C", "F") or v["n"] != 6:       # a tag, not a verdict: two witnesses are enough
+        return None, None, []
+    calls = {"onesample.stat": lambda ax: onesample.stat(Y, "student", 0.0, ax)}
+    bad = []
+    for name, f in calls.items():
+        for ax in (-3,):
+            def child(w, f=f, ax=ax):
+                out = []
+                for a in (ax, ax + 3):
+                    try:
+                        out.append(("ok", np.asarray(f(a)).tobytes()))
+                    except Exception as e:
+                        out.append(("exc", type(e).__name__))
+                os.write(w, pickle.dumps(out))
+            rd, wr = os.pipe()
+            st, sig = forked(lambda: child(wr), timeout=3)
+            os.close(wr)
+            data = b""
+            while True:
+                chunk = os.read(rd, 1 << 16)
+                if not chunk:
+                    break
+                data += chunk
+            os.close(rd)
+            if st in ("crash", "hang"):
+                bad.append(f"nipy.labs.group.{name}(..., axis={ax}) " + (f"crashes the interpreter (signal {sig})" if st == "crash" else "hangs"))
+            elif data:
+                out = pickle.loads(data)
+                if out[0][0] == "ok" and out[1][0] == "ok" and out[0][1] != out[1][1]:
+                    bad.append(f"nipy.labs.group.{name}(..., axis={ax}) differs from axis={ax + 3} on the same data "
+                               f"(the glue walks memory outside the fibres)")
+    mutated, exc, ev = call([lambda: onesample.stat(Y, "student", 0.0, 0)], Y=Y, V=V, Y2=Y2)
+    # the installed extension modules are not a witness of /repo's source (the defect is fixed in fffpy.c and checked on
+    # the re-compiled file by the `fffpy` kernel cases): what the stale binaries do is recorded as a tag only
+    return mutated, exc, ev, (["stale-binary-negative-axis"] if bad else ["stale-binary-negative-axis-ok"])
